@@ -239,7 +239,13 @@ let mk_sys toks =
       let conv = function Acq _ -> [UAcq] | Rel (lk, fr) -> [URel (mode (lk && kind = "uis"), fr)] | Bor -> [UBorrowed] | IsL -> [UIsLocked] | Rec _ -> [] in
       let progs = Array.map (fun l -> List.concat (List.map conv l)) aprogs in
       let drain = List.init (capi + 2) (fun _ -> UAcq) in
-      let c = ref (uis_init (n_of_int capi) distn (fun t -> let i = int_of_nat t in if i < nt then progs.(i) else if i = nt then drain else [])) in
+      let c0 = uis_init (n_of_int capi) distn (fun t -> let i = int_of_nat t in if i < nt then progs.(i) else if i = nt then drain else []) in
+      (* thread states are kept in an array: the model's upd_l closure chain would make every lookup of a
+         long-parked thread linear in the number of steps *)
+      let arr = Array.init (nt + 2) (fun i -> snd c0 (nat_of_int i)) in
+      let mk g = (g, fun t -> let i = int_of_nat t in if i <= nt then arr.(i) else arr.(nt + 1)) in
+      let c = ref (mk (fst c0)) in
+      let commit t c' = arr.(t) <- snd c' (nat_of_int t); c := mk (fst c') in
       let check () =
         if !inv_bad = None then begin
           let g = fst !c in
@@ -251,8 +257,8 @@ let mk_sys toks =
       let step t =
         let rec go () = match uis_step1 (nat_of_int t) !c with
           | None -> None
-          | Some (c', []) -> c := c'; go ()
-          | Some (c', es) -> c := c'; incr nsteps; check (); Some es in go () in
+          | Some (c', []) -> commit t c'; go ()
+          | Some (c', es) -> commit t c'; incr nsteps; check (); Some es in go () in
       let finished t =
         let rec go cc = match uis_step1 (nat_of_int t) cc with None -> true | Some (c', []) -> go c' | Some _ -> false in go !c in
       { nthreads = nt; step; finished;
@@ -266,7 +272,7 @@ let mk_sys toks =
           while !continue_ do
             match uis_step1 (nat_of_int nt) !c with
             | None -> continue_ := false
-            | Some (c', es) -> c := c';
+            | Some (c', es) -> commit nt c';
               List.iter (function ERet r -> codes := u64_string_of_n r :: !codes; if int_of_n r land 7 = 0 then continue_ := false | _ -> ()) es
           done;
           let m = (if kind = "pool" then "x" else if locked then "0" else u64_string_of_n b) :: (if locked then "1" else "0") :: List.rev !codes in
